@@ -77,6 +77,9 @@ BaseOp(op) == CASE op = "*=" -> "*" [] op = "/=" -> "/" [] op = "%=" -> "%" [] o
                 [] op = "<<=" -> "<<" [] op = ">>=" -> ">>" [] op = "&=" -> "&" [] op = "^=" -> "^" [] OTHER -> "|"
 
 RECURSIVE Eval(_, _, _)
+(* the deviation, precisely: an operand that C skips is evaluated -- unless it is a plain variable, whose value is only *)
+(* looked up when it is used (so `0 && g` with a garbage g is no fault, `0 && -g` is)                                     *)
+Skipped(e, st) == IF e.k = "var" THEN R(Zero, st, FALSE, FALSE) ELSE Eval(e, st, TRUE)
 Eval(e, st, eager) ==
     CASE e.k = "num" -> R(e.v, st, e.bad, FALSE)
       [] e.k = "var" -> LET x == Read(st, e.n) IN R(x.v, st, x.f, FALSE)
@@ -94,7 +97,7 @@ Eval(e, st, eager) ==
                decided == IF e.k = "and" THEN a.v = Zero ELSE a.v # Zero
            IN  IF a.f THEN R(Zero, a.st, TRUE, a.u)
                ELSE IF decided /\ ~eager THEN R(Bool(e.k = "or"), a.st, FALSE, a.u)         \* the right operand is not evaluated
-               ELSE LET b == Eval(e.b, a.st, eager) IN
+               ELSE LET b == IF decided THEN Skipped(e.b, a.st) ELSE Eval(e.b, a.st, eager) IN
                     IF b.f THEN R(Zero, b.st, TRUE, a.u \/ b.u)
                     ELSE R(IF decided THEN Bool(e.k = "or") ELSE Bool(b.v # Zero), b.st, FALSE, a.u \/ b.u)
       [] e.k = "tern" ->
@@ -102,8 +105,8 @@ Eval(e, st, eager) ==
            IF c.f THEN R(Zero, c.st, TRUE, c.u)
            ELSE IF ~eager
                 THEN LET x == Eval(IF c.v # Zero THEN e.a ELSE e.b, c.st, eager) IN R(x.v, x.st, x.f, c.u \/ x.u)
-                ELSE LET a == Eval(e.a, c.st, eager)
-                         b == Eval(e.b, IF a.f THEN c.st ELSE a.st, eager)
+                ELSE LET a == IF c.v # Zero THEN Eval(e.a, c.st, eager) ELSE Skipped(e.a, c.st)
+                         b == IF c.v # Zero THEN Skipped(e.b, IF a.f THEN c.st ELSE a.st) ELSE Eval(e.b, IF a.f THEN c.st ELSE a.st, eager)
                      IN  IF a.f THEN R(Zero, a.st, TRUE, c.u \/ a.u)
                          ELSE IF b.f THEN R(Zero, b.st, TRUE, c.u \/ a.u \/ b.u)
                          ELSE R(IF c.v # Zero THEN a.v ELSE b.v, b.st, FALSE, c.u \/ a.u \/ b.u)
@@ -154,7 +157,8 @@ Prec(e) == CASE e.k \in {"num", "var", "inc"} -> 15
              [] e.k = "and" -> 5 [] e.k = "or" -> 4 [] e.k = "tern" -> 3 [] OTHER -> 2
 
 RECURSIVE Text(_, _)
-Paren(e, need, full) == IF need \/ (full /\ e.k \notin {"num", "var"}) THEN "(" \o Text(e, full) \o ")" ELSE Text(e, full)
+LV(n, full) == IF full THEN "(" \o n \o ")" ELSE n
+Paren(e, need, full) == IF need \/ (full /\ e.k # "num") THEN "(" \o Text(e, full) \o ")" ELSE Text(e, full)
 Text(e, full) ==
     CASE e.k = "num" -> e.t
       [] e.k = "var" -> e.n
@@ -163,7 +167,9 @@ Text(e, full) ==
       [] e.k = "and" -> Paren(e.a, Prec(e.a) < 5, full) \o " && " \o Paren(e.b, Prec(e.b) <= 5, full)
       [] e.k = "or"  -> Paren(e.a, Prec(e.a) < 4, full) \o " || " \o Paren(e.b, Prec(e.b) <= 4, full)
       [] e.k = "tern" -> Paren(e.c, Prec(e.c) <= 3, full) \o " ? " \o Paren(e.a, FALSE, full) \o " : " \o Paren(e.b, Prec(e.b) < 3, full)
-      [] e.k = "asg" -> e.n \o " " \o e.op \o " " \o Paren(e.a, FALSE, full)
-      [] e.k = "inc" -> (CASE e.op = "++x" -> "++" \o e.n [] e.op = "--x" -> "--" \o e.n [] e.op = "x++" -> e.n \o "++" [] OTHER -> e.n \o "--")
+      \* a parenthesised variable is still an lvalue
+      [] e.k = "asg" -> LV(e.n, full) \o " " \o e.op \o " " \o Paren(e.a, FALSE, full)
+      [] e.k = "inc" -> (CASE e.op = "++x" -> "++" \o LV(e.n, full) [] e.op = "--x" -> "--" \o LV(e.n, full)
+                           [] e.op = "x++" -> LV(e.n, full) \o "++" [] OTHER -> LV(e.n, full) \o "--")
       [] OTHER -> Paren(e.a, Prec(e.a) <= 2, full) \o " " \o e.op \o " " \o Paren(e.b, FALSE, full)
 =============================================================================
